@@ -9,12 +9,25 @@ design:    closed configurations MC_DebFile_sets (all 2^15 subsets of the 15-nam
            AcceptIffWellFormed, PartsAreCandidates, OrderIrrelevant, SpellingInvariant, ContentExact,
            ExtGateDead, LazyDecompress.  Negative controls run in every check: AcceptFirstCandidate,
            InfoOptional (-> AcceptIffWellFormed violated), NormalizeSlash = FALSE (-> SpellingInvariant).
+history:   spec/DebFileCache.tla -- the query part as a history over TWO open packages (same file names,
+           different contents / compression) with the state an implementation may keep between calls
+           made explicit (tarball memo, content memo, memoised dictionaries), Mutate (caller changes a
+           returned dictionary) and Reopen (path rewritten and opened again); HistExact: every answer
+           in every history = the stateless answer of DebFile.tla.  Negative controls:
+           CacheKeyedByNameOnly, ResultsAliased, ContentCacheByFile (each violates HistExact).
 binding:   (a) every CASE line (member list, expected Ok / DebError) is built as a real .deb (own ar
                writer, tarfile './name' members, gzip/bz2/lzma incl. FORMAT_ALONE) and opened by
                debian.debfile.DebFile; every PROBE line (content + complete table of expected query
                results for the three spellings) is concretised with real names / bytes and every
                entry is asked of the real object; thorough: dpkg-deb -b as a second packer;
-           (b) random packages recorded from the real code are validated by spec/TraceDebFile.tla.
+               every table is asked in shuffled order, control/data and the spellings interleaved, every
+               query again later through another access path (get_content, get_file().read(), [],
+               chunked reads with other queries in between, two file objects at once), and scripts() /
+               md5sums() / debcontrol() twice with the returned dictionary mutated in between;
+               HTAB lines of DebFileCache drive random histories on two real packages open at once,
+               including rewriting a path and opening it again;
+           (b) random packages recorded from the real code are validated by spec/TraceDebFile.tla,
+               random two-package sessions by spec/TraceDebFileCache.tla.
 """
 import io
 import json
@@ -24,10 +37,11 @@ from concurrent.futures import ThreadPoolExecutor
 
 import core
 import c07_build as B
+import c07_hist as H
 
 MANIFEST = dict(
-    technique="TLA+ spec (DebFile: statement-level WellFormed/packed maps + transcription of DebFile.__init__/DebPart) model-checked by TLC over all member-name subsets, bounded member orders and all small contents; every configuration built as a real .deb and opened by DebFile; recorded random packages validated by TLC (TraceDebFile)",
-    text="TLC enumerates every subset of a 15-name member universe (debian-binary, control.tar and data.tar with none/gz/bz2/xz/lzma, four foreign names) and every injective member sequence up to length 3 (quick) / 5 (thorough) and checks accept <=> has debian-binary and exactly one control and one data candidate, independence of member order, equality of the answers for 'n', './n', '/n' and that every query returns the packed blob, for every subset of the five maintainer scripts and every small data/md5sums map. Each CASE line is built as a real package and DebFile must answer Ok / DebError as TLC says (any other exception type is a violation); each PROBE line is concretised (names with spaces, non-ASCII, nested directories; binary, empty, NUL contents) and the complete table of has_file / in / get_content / get_file / [] answers, scripts(), md5sums(), debcontrol() is compared; random packages with random orders, foreign members and defects are recorded and validated by TLC.",
+    technique="TLA+ specs (DebFile: statement-level WellFormed/packed maps + transcription of DebFile.__init__/DebPart; DebFileCache: query histories over two open packages with explicit caches) model-checked by TLC over all member-name subsets, bounded member orders and all small contents; every configuration built as a real .deb and opened by DebFile; recorded random packages validated by TLC (TraceDebFile)",
+    text="TLC enumerates every subset of a 15-name member universe (debian-binary, control.tar and data.tar with none/gz/bz2/xz/lzma, four foreign names) and every injective member sequence up to length 3 (quick) / 5 (thorough) and checks accept <=> has debian-binary and exactly one control and one data candidate, independence of member order, equality of the answers for 'n', './n', '/n' and that every query returns the packed blob, for every subset of the five maintainer scripts and every small data/md5sums map. Each CASE line is built as a real package and DebFile must answer Ok / DebError as TLC says (any other exception type is a violation); each PROBE line is concretised (names with spaces, non-ASCII, nested directories; binary, empty, NUL contents) and the complete table of has_file / in / get_content / get_file / [] answers, scripts(), md5sums(), debcontrol() is compared; random packages with random orders, foreign members and defects are recorded and validated by TLC. A history layer (DebFileCache) models two packages open at once with the caches an implementation might keep, caller-side mutation of returned dictionaries and rewrite + re-open of a path, and TLC checks that every answer in every history equals the stateless one; accordingly all queries are issued repeatedly, shuffled and interleaved between parts, spellings, access paths and two simultaneously open packages with equal file names, in replay and in recorded sessions.",
     note="Payload fidelity through tarfile/compressors is sampled (seeded), structure is enumerated. Member lists whose verdict hinges on zst support (not in PART_EXTS of this tree) are unspecified: executed, either verdict accepted. Which exception reports an absent file in get_content (KeyError today) and the key type of md5sums() are diagnostic. Trusted: TLC, tarfile/gzip/bz2/lzma/hashlib, the ar writer, dpkg-deb and ar where present.",
     design="5 (C07)")
 
@@ -444,6 +458,8 @@ def validate(ctx, traces, with_controls=True):
 
 NEGATIVE = [("MC_DebFile_neg_first.cfg", "AcceptIffWellFormed"), ("MC_DebFile_neg_slash.cfg", "SpellingInvariant"),
             ("MC_DebFile_neg_info.cfg", "AcceptIffWellFormed")]
+NEGATIVE_HIST = [("MC_DebFileCache_neg_name.cfg", "HistExact"), ("MC_DebFileCache_neg_alias.cfg", "HistExact"),
+                 ("MC_DebFileCache_neg_content.cfg", "HistExact")]
 C1 = ["-XX:TieredStopAtLevel=1"]
 
 
@@ -560,6 +576,25 @@ def decompressor_diag(ctx):
         tarfile.TarFile.OPEN_METH = saved
 
 
+def _work_hist(args):
+    """pool worker: random two-package histories against the HTAB table TLC printed"""
+    seeds, lines, nsteps, work = args
+    tab, pkgs, prts = H.load_table(lines)
+    fails, drifts, nq = [], [], 0
+    for sd in seeds:
+        case = H.gen_hist(random.Random(sd), tab, pkgs, prts, nsteps)
+        nq += len(case["ops"])
+        msg = H.run_hist(case, work, drifts.append)
+        if msg:
+            fails.append((sd, msg, H.hist_to_json(case)))
+    return len(seeds), fails, drifts[:20], nq
+
+
+def _work_sessions(args):
+    seeds, work = args
+    return [H.record_session(random.Random(sd), work) for sd in seeds]
+
+
 def chunks(lst, n):
     k = max(1, (len(lst) + n - 1) // n)
     return [lst[i:i + k] for i in range(0, len(lst), k)]
@@ -593,7 +628,7 @@ def run(ctx):
 
     # replay workers are forked before any thread exists
     procs = multiprocessing.get_context("fork").Pool(nproc)
-    pool = ThreadPoolExecutor(max_workers=5)
+    pool = ThreadPoolExecutor(max_workers=6)
     try:
         _run(ctx, quick, rng, W, nproc, procs, pool, timeout, timing, lap)
     finally:
@@ -606,9 +641,9 @@ def run(ctx):
 def _run(ctx, quick, rng, W, nproc, procs, pool, timeout, timing, lap):
     import shutil
 
-    def tlc(cfg, workers=W, small=False):
+    def tlc(cfg, workers=W, small=False, module="DebFile"):
         # short runs are dominated by JIT compilation: C1 only halves their CPU time
-        return pool.submit(core.run_tlc, "DebFile", cfg, ctx.work, workers=workers, want_tags=set(),
+        return pool.submit(core.run_tlc, module, cfg, ctx.work, workers=workers, want_tags=set(),
                            timeout=timeout, keep_raw=True, java_opts=C1 if (quick or small) else None)
     jobs = {"content": tlc("MC_DebFile_content_emit.cfg" if quick else "MC_DebFile_content.cfg"),
             "sets": tlc("MC_DebFile_sets.cfg"),
@@ -616,7 +651,9 @@ def _run(ctx, quick, rng, W, nproc, procs, pool, timeout, timing, lap):
     if not quick:
         jobs["matrix"] = tlc("MC_DebFile_matrix.cfg")
         jobs["nodecomp"] = tlc("MC_DebFile_nodecomp.cfg", 2, True)
+    jobs["hist"] = tlc("MC_DebFileCache.cfg", 2, True, "DebFileCache")
     negs = [(cfg, inv, tlc(cfg, 2, True)) for cfg, inv in (NEGATIVE[:2] if quick else NEGATIVE)]
+    negs += [(cfg, inv, tlc(cfg, 2, True, "DebFileCache")) for cfg, inv in (NEGATIVE_HIST[:1] if quick else NEGATIVE_HIST)]
     results = {}
 
     def result(name, tag=None):
@@ -632,9 +669,19 @@ def _run(ctx, quick, rng, W, nproc, procs, pool, timeout, timing, lap):
     ntr = 250 if quick else 4000
     tseeds = [rng.getrandbits(48) for _ in range(ntr)]
     trace_jobs = [procs.apply_async(_work_traces, ((ch, ctx.work),)) for ch in chunks(tseeds, nproc)]
+    sseeds = [rng.getrandbits(48) for _ in range(80 if quick else 1200)]
+    session_jobs = [procs.apply_async(_work_sessions, ((ch, ctx.work),)) for ch in chunks(sseeds, nproc)]
+    hseeds = [rng.getrandbits(48) for _ in range(60 if quick else 800)]
 
     pending = []        # (label, async result)
     n_pkg = 0
+
+    # ---- spec -> code (0): two packages open at once, interleaved / repeated queries, mutation, re-open
+    hlines = result("hist", "HTAB")
+    lap("wait_tlc")
+    for ch in chunks(hseeds, nproc):
+        pending.append(("hist", procs.apply_async(_work_hist, ((ch, hlines, 60 if quick else 90, ctx.work),))))
+    ctx.extra["history_table_lines"] = len(hlines)
 
     # ---- the contents TLC enumerated, with the complete table of expected answers
     probes = sorted(result("content", "PROBE"), key=lambda c: json.dumps(c["pkg"], sort_keys=True))
@@ -729,6 +776,28 @@ def _run(ctx, quick, rng, W, nproc, procs, pool, timeout, timing, lap):
     ctx.extra["trace_open_verdicts"] = {k: sum(1 for t in traces if t["events"][0]["st"] == k)
                                         for k in sorted({t["events"][0]["st"] for t in traces})}
 
+    # ---- code -> spec (2): recorded two-package sessions validated against DebFileCache.tla
+    sessions = [t for j in session_jobs for t in j.get(timeout) if t]
+    srej, sinfo = H.validate_sessions(ctx, sessions, java_opts=C1 if len(sessions) < 500 else None)
+    lap("validate_sessions")
+    ctx.evaluations += len(sessions)
+    for i in range(len(sessions)):
+        ctx.distinct.add(("session", i))
+    for i in srej:
+        t = sessions[i - 1]
+        at = sinfo.get(i, 0)
+        ev = t["events"][at] if at < len(t["events"]) else None
+        found.setdefault("session", []).append((
+            {"kind": "session", "given": t["given"], "objs": t["objs"], "events": t["events"], "first_unexplained_event": at + 1},
+            "two packages open (members %r / %r): recorded history not explained by DebFileCache.tla: event %d %r (after %d accepted events)"
+            % (t["objs"][0]["mem"], t["objs"][1]["mem"], at + 1, ev, at)))
+    if sessions:
+        ctx.sample("two-package session: " + json.dumps({"objs": sessions[0]["objs"], "events": sessions[0]["events"][:4]},
+                                                        separators=(",", ":"))[:700])
+    ctx.extra["sessions_recorded"] = len(sessions)
+    ctx.extra["sessions_rejected"] = len(srej)
+    ctx.extra["session_events"] = sum(len(t["events"]) for t in sessions)
+
     # ---- thorough: dpkg-deb as an independent packer
     if not quick:
         dpkg_leg(ctx, probes, set_cases)
@@ -736,20 +805,26 @@ def _run(ctx, quick, rng, W, nproc, procs, pool, timeout, timing, lap):
 
     # ---- collect the replay results (in dispatch order: deterministic)
     per_label = {}
+    hist_queries = 0
     for label, ar in pending:
-        n, fails, drifts = ar.get(timeout)
+        got = ar.get(timeout)
+        n, fails, drifts = got[:3]
+        if label == "hist":
+            hist_queries += got[3]
+            n *= 2          # two packages per history
         n_pkg += n
         per_label[label] = per_label.get(label, 0) + n
         for d in drifts:
             ctx.drift(d)
         for key, msg, case in fails:
             found.setdefault(label, []).append((case, msg))
-    for label in ("content", "matrix"):
+    ctx.extra["history_steps_replayed"] = hist_queries
+    for label in ("content", "matrix", "hist"):
         for i in range(per_label.get(label, 0)):
             ctx.case_seen((label, i), True)
     ctx.extra["packages_per_configuration"] = per_label
-    for label in ("sets", "orders", "content", "matrix", "trace"):
-        for case, msg in found.get(label, [])[:2]:
+    for label in ("hist", "sets", "orders", "content", "matrix", "session", "trace"):
+        for case, msg in found.get(label, [])[:1 if label in ("sets", "orders", "matrix") else 2]:
             ctx.violation(case, msg)
     if found:
         ctx.extra["violating_cases"] = {k: len(v) for k, v in found.items()}
@@ -763,12 +838,12 @@ def _run(ctx, quick, rng, W, nproc, procs, pool, timeout, timing, lap):
         r = f.result()
         shutil.rmtree(os.path.dirname(r.raw_path), ignore_errors=True)
         ncontrols[cfg] = r.violated
-        account(ctx, "DebFile", r, count=False)
+        account(ctx, "DebFileCache" if "Cache" in cfg else "DebFile", r, count=False)
         if r.violated != inv:
             raise core.MachineryError("negative control %s: expected %s to be violated, TLC says %r" % (cfg, inv, r.violated))
     lap("wait_tlc")
     for name, r in results.items():
-        account(ctx, "DebFile", r)
+        account(ctx, "DebFileCache" if name == "hist" else "DebFile", r)
     ctx.extra["spec_negative_controls"] = ncontrols
     decompressor_diag(ctx)
     ev = {}
@@ -784,7 +859,7 @@ def _run(ctx, quick, rng, W, nproc, procs, pool, timeout, timing, lap):
         "spellings": SPELLINGS, "trace packages": "<= 9 files, 18 foreign member names, random order"}
     ctx.extra["tlc"] = {n: {"distinct": r.distinct, "generated": r.generated, "wall_s": round(r.wall, 1)} for n, r in results.items()}
     ctx.extra["packages_built_and_opened"] = n_pkg
-    ctx.traces += n_pkg + len(traces)
+    ctx.traces += n_pkg + len(traces) + len(sessions)
 
 
 def dpkg_leg(ctx, probes, set_cases):
@@ -859,6 +934,16 @@ def replay(ctx, case):
         if st != case["exp"]["st"]:
             return "dpkg-deb package: %s, specification says %s" % (st, case["exp"]["st"])
         return check_content(deb, case["probe"], conc, random.Random(0), "full") if st == "ok" else None
+    if case["kind"] == "hist":
+        return H.run_hist(case, ctx.work)
+    if case["kind"] == "session":
+        t = H.record_session(random.Random(0), ctx.work, given=case["given"])
+        if t is None:
+            return "a package of the session can no longer be opened"
+        rejected, info = H.validate_sessions(ctx, [t], java_opts=C1, with_controls=False)
+        if rejected:
+            return "history still not explained by the specification at event %d" % (info.get(1, 0) + 1)
+        return None
     if case["kind"] == "trace":
         t = record_trace(random.Random(0), ctx.work, given=case["given"])
         rejected, info = validate(ctx, [t], with_controls=False)
